@@ -511,7 +511,7 @@ void runFifoArray(const Params &p, std::ostream &out)
 void runOther(uint64_t seed, const std::string &tier, std::ostream &out)
 {
 	vh::Rng rng(seed * 7919 + 5);
-	size_t n = tier == "quick" ? 6 : 60;
+	size_t n = tier == "quick" ? 30 : 240;
 	std::vector<size_t> depths = { 2, 3, 4, 8, 16, 32 };
 	for (size_t i = 0; i < n; i++) {
 		Params p;
